@@ -120,6 +120,8 @@ pub enum Sym {
     OneAbove,
     /// the float just below 1
     OneBelow,
+    /// the largest finite number of the float type
+    Max,
     U(u64),
     OptU(Option<u64>),
     OptL(Option<f64>),
@@ -141,6 +143,7 @@ pub fn resolve(sym: Sym, float: &str) -> Val {
         Sym::EpsBelow => Val::F(if f32m { f32::from_bits(f32::EPSILON.to_bits() - 1) as f64 } else { f64::from_bits(f64::EPSILON.to_bits() - 1) }),
         Sym::OneAbove => Val::F(if f32m { (1.0f32 + f32::EPSILON) as f64 } else { 1.0 + f64::EPSILON }),
         Sym::OneBelow => Val::F(if f32m { f32::from_bits(1.0f32.to_bits() - 1) as f64 } else { f64::from_bits(1.0f64.to_bits() - 1) }),
+        Sym::Max => Val::F(if f32m { f32::MAX as f64 } else { f64::MAX }),
         Sym::U(x) => Val::U(x),
         Sym::OptU(x) => Val::OptU(x),
         Sym::OptL(x) => Val::OptF(x.map(lit)),
@@ -274,6 +277,7 @@ pub fn judge<P: ParamGuard>(
     base: &dyn Fn() -> P,
     set: &dyn Fn(P, &Case) -> P,
     clone: Option<&dyn Fn(&P) -> P>,
+    rebuilders: &[(&'static str, &dyn Fn(P, &Case) -> P)],
     snap: &dyn Fn(&P) -> String,
     csnap: &dyn Fn(&P::Checked) -> String,
     ops: Vec<Op<'_, P>>,
@@ -468,7 +472,7 @@ pub fn judge<P: ParamGuard>(
     }
 
     // ---- history dimension: the verdict must not depend on what the builder value went through ----
-    run_history(case, spec, base, set, clone, snap, csnap, &ops, &r_ref, &s0, &fresh_u, run_ops, &point, out);
+    run_history(case, spec, base, set, clone, rebuilders, snap, csnap, &ops, &r_ref, &s0, &fresh_u, run_ops, &point, out);
 }
 
 type OpRes = Result<Result<String, String>, String>;
@@ -494,7 +498,7 @@ pub fn reference_point(spec: &BuilderSpec, float: &str, invalid: bool) -> Option
     Some(Case { builder: spec.name.to_string(), float: float.to_string(), vals })
 }
 
-pub const HISTORIES: [&str; 4] = ["checked_then_moved", "checked_cloned_then_moved", "fitted_then_moved", "rejected_then_moved"];
+pub const HISTORIES: [&str; 5] = ["checked_then_moved", "checked_cloned_then_moved", "fitted_then_moved", "rejected_then_moved", "valid_then_invalid_then_moved"];
 
 /// Explicit-state exploration of the builder as a tiny state machine. State = (builder value,
 /// what it went through); actions = configure at the valid reference point A (or the invalid one A'),
@@ -508,6 +512,7 @@ fn run_history<P: ParamGuard>(
     base: &dyn Fn() -> P,
     set: &dyn Fn(P, &Case) -> P,
     clone: Option<&dyn Fn(&P) -> P>,
+    rebuilders: &[(&'static str, &dyn Fn(P, &Case) -> P)],
     snap: &dyn Fn(&P) -> String,
     csnap: &dyn Fn(&P::Checked) -> String,
     ops: &[Op<'_, P>],
@@ -543,6 +548,13 @@ fn run_history<P: ParamGuard>(
     };
     let from_a = moved_from(&a);
     let from_bad = bad.as_ref().map(|b| moved_from(b));
+    let a_to_bad: Option<Case> = bad.as_ref().map(|bc| {
+        let mut c = bc.clone();
+        for p in c.vals.iter_mut() {
+            p.keep = same(&p.val, &a.pv(&p.name).val);
+        }
+        c
+    });
     let build = |k: usize| -> Option<P> {
         match k {
             0 => {
@@ -561,19 +573,56 @@ fn run_history<P: ParamGuard>(
                 let _ = (op.unchecked)(&p).is_ok();
                 set(p, &from_a)
             }),
-            _ => bad.as_ref().map(|bc| {
+            3 => bad.as_ref().map(|bc| {
                 let p = set(base(), bc);
                 let _ = p.check_ref().is_ok();
                 set(p, from_bad.as_ref().unwrap())
             }),
+            // last write wins: valid A, then the invalid A', then B - no check in between
+            4 => bad.as_ref().map(|bc| {
+                let p = set(base(), &a);
+                let p = set(p, &a_to_bad.clone().unwrap());
+                let _ = bc;
+                set(p, from_bad.as_ref().unwrap())
+            }),
+            // rebuilding / type-changing setters (with_rng, dist_fn, nn_algo, init_method, kernel, tokenizer ...),
+            // called with the value the point already has: every value setter of B BEFORE it, or AFTER it
+            _ => {
+                let j = k - 5;
+                let n = rebuilders.len();
+                if j < 2 * n {
+                    let (_, rb) = rebuilders[j / 2];
+                    if j % 2 == 0 {
+                        Some(rb(set(base(), case), case))
+                    } else {
+                        Some(set(rb(base(), case), case))
+                    }
+                } else if j == 2 * n && n >= 2 {
+                    let mut p = set(base(), case);
+                    for (_, rb) in rebuilders {
+                        p = rb(p, case);
+                    }
+                    Some(p)
+                } else {
+                    None
+                }
+            }
         }
     };
-    for (k, hname) in HISTORIES.iter().enumerate() {
+    let mut hnames: Vec<String> = HISTORIES.iter().map(|s| s.to_string()).collect();
+    for (n, _) in rebuilders {
+        hnames.push(format!("values_then_{}", n));
+        hnames.push(format!("{}_then_values", n));
+    }
+    if rebuilders.len() >= 2 {
+        hnames.push("values_then_all_rebuilding_setters".to_string());
+    }
+    for (k, hname) in hnames.iter().enumerate() {
         let p = match guarded(|| build(k)) {
             Ok(Some(p)) => p,
             _ => continue, // history not available for this builder (no Clone / no invalid entry) or A itself panics
         };
-        let (st, tr) = [(3, 2), (4, 3), (3, 2), (3, 2)][k];
+        let (st, tr) = if k < 5 { [(3, 2), (4, 3), (3, 2), (3, 2), (3, 2)][k] } else { (2, 1 + if hname.contains("all_rebuilding") { rebuilders.len() as u64 - 1 } else { 0 }) };
         out.hist_states += st;
         out.hist_transitions += tr;
         let at = format!("history.{}", hname);
@@ -581,17 +630,32 @@ fn run_history<P: ParamGuard>(
             let mut v = serde_json::to_value(case).unwrap();
             let o = v.as_object_mut().unwrap();
             o.insert("at".into(), json!(at));
-            o.insert("history".into(), json!({"name": hname, "first_configured_at": if k == 3 { bad.as_ref() } else { Some(&a) }.map(|c| c.vals.iter().map(|p| format!("{}={:?}", p.name, p.val)).collect::<Vec<_>>())}));
+            o.insert("history".into(), json!({"name": hname, "first_configured_at": if k == 3 { bad.as_ref() } else if k >= 5 { None } else { Some(&a) }.map(|c| c.vals.iter().map(|p| format!("{}={:?}", p.name, p.val)).collect::<Vec<_>>())}));
             v
         };
         // the re-used builder must hold the parameters of B (otherwise the harness' setter chain does
         // not reach B from A for this builder: not comparable, counted)
         let sp = snap(&p);
         if !s_fresh.is_empty() && sp != s_fresh {
-            out.hist_not_comparable += 1;
-            continue;
+            if k >= 5 {
+                // a rebuilding setter called with the value the builder already has must carry every other
+                // parameter over: the final logical parameter set is B in either order
+                out.viols.push(Violation::new(
+                    format!("{}.history.{}.parameters_differ_from_fresh", b, hname),
+                    format!("the builder reached through `{}` holds {} but the same calls in the harness' default order give {}; point {}", hname, sp, s_fresh, point),
+                    cj(),
+                ));
+            } else {
+                out.hist_not_comparable += 1;
+                continue;
+            }
+        } else {
+            out.hist_traces += 1;
         }
-        out.hist_traces += 1;
+        if k >= 5 && s_fresh.is_empty() {
+            // no snapshot available (builder without Debug): verdicts and fits still compared
+        }
+        
         let rh = guarded(|| p.check_ref().map(|c| csnap(c)).map_err(|e| format!("{:?}", e)));
         let rv = guarded(|| build(k).map(|q| q.check().map(|c| csnap(&c)).map_err(|e| format!("{:?}", e))));
         let rv = match rv {
@@ -672,6 +736,8 @@ pub fn gt0(name: &'static str, src: &'static str, inside: f64, far: f64) -> Para
             (Sym::Tiny, "just_inside", V, false),
             (Sym::L(inside), "inside", V, false),
             (Sym::L(far), "far_inside", V, false),
+            // valid extreme: the largest finite value must pass the guards; no training call with it
+            (Sym::Max, "max_finite", V, true),
         ],
     }
 }
@@ -689,6 +755,8 @@ pub fn ge0(name: &'static str, src: &'static str, inside: f64, far: f64) -> Para
             (Sym::Tiny, "just_inside", V, false),
             (Sym::L(inside), "inside", V, false),
             (Sym::L(far), "far_inside", V, false),
+            // valid extreme: the largest finite value must pass the guards; no training call with it
+            (Sym::Max, "max_finite", V, true),
         ],
     }
 }
@@ -708,6 +776,8 @@ pub fn loose0(name: &'static str, src: &'static str, inside: f64, far: f64) -> P
             (Sym::Tiny, "just_inside", V, false),
             (Sym::L(inside), "inside", V, false),
             (Sym::L(far), "far_inside", V, false),
+            // valid extreme: the largest finite value must pass the guards; no training call with it
+            (Sym::Max, "max_finite", V, true),
         ],
     }
 }
@@ -737,7 +807,7 @@ pub fn count_ge1(name: &'static str, src: &'static str, inside: u64, far: u64) -
     Param {
         name,
         src,
-        vals: vec![(Sym::U(0), "zero", I, false), (Sym::U(1), "at_lower", V, false), (Sym::U(inside), "inside", V, false), (Sym::U(far), "far_inside", V, false)],
+        vals: vec![(Sym::U(0), "zero", I, false), (Sym::U(1), "at_lower", V, false), (Sym::U(inside), "inside", V, false), (Sym::U(far), "far_inside", V, false), (Sym::U(u32::MAX as u64), "huge", V, true)],
     }
 }
 
@@ -752,6 +822,7 @@ pub fn count_ge2(name: &'static str, src: &'static str, inside: u64, far: u64) -
             (Sym::U(2), "at_lower", V, false),
             (Sym::U(inside), "inside", V, false),
             (Sym::U(far), "far_inside", V, false),
+            (Sym::U(u32::MAX as u64), "huge", V, true),
         ],
     }
 }
